@@ -248,27 +248,68 @@ theorem canonHost_getD (puny : Str → Str) (o : Option Str) :
   | none => simp [canonHost_nil]
   | some s => simp
 
+/-- the path hypothesis of `canon_path` is no hypothesis on accepted strings: the path the
+parser returns for a cleaned string (which has a scheme and `//`: `ensure_protocol`) is empty
+or starts with `/` -/
+theorem absPath_of_accepted (u dp : Str) (hdp : DefaultProtocolOk dp) (p : Parsed)
+    (ha : Accepted u dp p) : Normpath.absPath p.path = true := by
+  obtain ⟨S, rest, hcl, _⟩ := cleanUrl_cleaned u dp hdp
+  have hf := fromParse hcl ha.1
+  have := hf.split.path_abs
+  simp only at this
+  rcases this with h | ⟨q, h⟩
+  · rw [h]; rfl
+  · rw [h]; simp [Normpath.absPath, startsWith]
+
+/-- the host of the re-parsed output is the host component `canonComps` computed -/
+theorem reparsed_hostname (puny : Str → Str) (quoted sf : Bool) (p : Parsed) :
+    (reparsedOf puny quoted sf p).hostname.getD [] = (canonComps puny quoted sf p).host.getD [] := by
+  simp only [reparsedOf, reparsed]
+  split
+  · rename_i h0; simp [← strOf_eq_getD, h0]
+  · simp [strOf_eq_getD]
+
 /-- **C01 on the output string**: the whole-string function returns a string that parses,
 and the parse `p'` of THAT STRING denotes the same resource as the parse `p` of the cleaned
-input — scheme, decoded userinfo, host key, effective port, path view (escaping half), ordered
-decoded query items, decoded fragment (unless stripped).  This is `Props/C01.lean` carried
-through the printer and the parser by `canonicalize_reparse_partial`. -/
-theorem canonicalize_same_resource (puny : Str → Str) (hpl : PunyLaws puny) (hpc : PunyClean puny)
+input, clause by clause as the property words them:
+
+* the same scheme;
+* the same decoded userinfo (user, password; absent ≡ empty);
+* the same host up to letter case and IDNA spelling: label by label the same ASCII-compatible
+  spelling `hostKey ace` — for every decoder that keeps the name of the `xn--` labels of the
+  input host (`SameNameOn`, the per-case obligation evaluated on the real decoder; implied by
+  `IdnaLaws`: `canonicalize_same_resource_laws`) — and, for the record, the weaker fixed-point
+  form `canonHost puny host' = canonHost puny host` that any idempotent decoder satisfies;
+* the same effective port;
+* **the same path view**: `pathView p'.path = pathView p.path` — the same sequence of
+  percent-decoded segments after `.`, `..` and empty-segment resolution and the same
+  trailing-slash flag — with NO path hypothesis: `absPath` follows from `Accepted`
+  (`absPath_of_accepted`);
+* the same ordered list of decoded query keys and values, under both readings of a key /
+  value: percent-decoding (`pctItem`: `+` is a plus sign) and form decoding (`formItem`: a raw
+  `+` is a space, `%2B` a plus sign; FX-C01-6e09416);
+* the same decoded fragment, or the empty one when `strip_fragment` was requested.
+
+This is `Props/C01.lean` carried through the printer and the parser by
+`canonicalize_reparse`. -/
+theorem canonicalize_same_resource (ace puny : Str → Str) (hpl : PunyLaws puny) (hpc : PunyClean puny)
+    (hl : ∀ l, ace (Py.lower l) = ace l)
     (o : Opts) (hdp : DefaultProtocolOk o.defaultProtocol) (u : Str) (p : Parsed)
-    (ha : Accepted u o.defaultProtocol p) :
+    (ha : Accepted u o.defaultProtocol p)
+    (hsn : ∀ h, p.hostname = some h → SameNameOn ace puny h) :
     ∃ s p', canonicalizeUrl puny o u = some s ∧ parseUrl s = some p' ∧
       p'.scheme = p.scheme ∧
       optPct p'.username = optPct p.username ∧ optPct p'.password = optPct p.password ∧
+      hostKey ace (p'.hostname.getD []) = hostKey ace (p.hostname.getD []) ∧
       canonHost puny (p'.hostname.getD []) = canonHost puny (p.hostname.getD []) ∧
       effPort p.scheme p'.port = effPort p.scheme p.port ∧
-      (∃ cp, pathView p'.path = pathView cp ∧
-        cp = canonPath p.path (hasMore puny o.stripFragment p) ∧
-        pathView (unquotePath p.path) = pathView p.path) ∧
+      pathView p'.path = pathView p.path ∧
       (safeQslIter p'.query).map pctItem = (safeQslIter p.query).map pctItem ∧
+      (safeQslIter p'.query).map formItem = (safeQslIter p.query).map formItem ∧
       (o.stripFragment = false → pctStr p'.fragment = pctStr p.fragment) ∧
       (o.stripFragment = true → p'.fragment = []) := by
   obtain ⟨s, hs, hps⟩ := canonicalize_reparse puny hpc o hdp u p ha
-  refine ⟨s, _, hs, hps, rfl, ?_, ?_, ?_, ?_, ?_, ?_, ?_, ?_⟩
+  refine ⟨s, _, hs, hps, rfl, ?_, ?_, ?_, ?_, ?_, ?_, ?_, ?_, ?_, ?_⟩
   · have := (canon_userinfo puny o.quoted o.stripFragment p).1
     simp only [reparsedOf, reparsed, optPct] at this ⊢
     rw [← this]
@@ -285,23 +326,67 @@ theorem canonicalize_same_resource (puny : Str → Str) (hpl : PunyLaws puny) (h
     · rename_i hn
       simp only [Classical.not_not] at hn
       simp [← strOf_eq_getD, hn]
+  · rw [reparsed_hostname]
+    have := canon_host_name ace puny hpl hl o.quoted o.stripFragment p hsn
+    cases hh : p.hostname with
+    | none => simp [canonComps, hh]
+    | some h =>
+      rw [hh] at this
+      cases hc : (canonComps puny o.quoted o.stripFragment p).host with
+      | none => rw [hc] at this; cases this
+      | some h' => rw [hc] at this; simpa using this
   · have := canon_host puny hpl o.quoted o.stripFragment p
-    have e : (reparsedOf puny o.quoted o.stripFragment p).hostname.getD [] =
-        (canonComps puny o.quoted o.stripFragment p).host.getD [] := by
-      simp only [reparsedOf, reparsed]
-      split
-      · rename_i h0; simp [← strOf_eq_getD, h0]
-      · simp [strOf_eq_getD]
-    rw [e, canonHost_getD, canonHost_getD, this]
+    rw [reparsed_hostname, canonHost_getD, canonHost_getD, this]
   · exact canon_port puny o.quoted o.stripFragment p
-  · exact canon_path_escaping puny o.quoted o.stripFragment p
+  · exact canon_path puny o.quoted o.stripFragment p (absPath_of_accepted u _ hdp p ha)
   · exact canon_query puny o.quoted o.stripFragment p
+  · exact canon_query_form puny o.quoted o.stripFragment p
   · intro hsf
     have := (canon_fragment puny o.quoted p).1
     rw [hsf]; exact this
   · intro hsf
     have := (canon_fragment puny o.quoted p).2
     simp only [reparsedOf, reparsed, hsf, this, Option.getD_none]
+
+/-- the same under the decoder law stated of ALL labels (`IdnaLaws`): no per-host hypothesis
+is left -/
+theorem canonicalize_same_resource_laws (ace puny : Str → Str) (hpl : PunyLaws puny)
+    (hpc : PunyClean puny) (hi : IdnaLaws ace puny)
+    (o : Opts) (hdp : DefaultProtocolOk o.defaultProtocol) (u : Str) (p : Parsed)
+    (ha : Accepted u o.defaultProtocol p) :
+    ∃ s p', canonicalizeUrl puny o u = some s ∧ parseUrl s = some p' ∧
+      p'.scheme = p.scheme ∧
+      optPct p'.username = optPct p.username ∧ optPct p'.password = optPct p.password ∧
+      hostKey ace (p'.hostname.getD []) = hostKey ace (p.hostname.getD []) ∧
+      canonHost puny (p'.hostname.getD []) = canonHost puny (p.hostname.getD []) ∧
+      effPort p.scheme p'.port = effPort p.scheme p.port ∧
+      pathView p'.path = pathView p.path ∧
+      (safeQslIter p'.query).map pctItem = (safeQslIter p.query).map pctItem ∧
+      (safeQslIter p'.query).map formItem = (safeQslIter p.query).map formItem ∧
+      (o.stripFragment = false → pctStr p'.fragment = pctStr p.fragment) ∧
+      (o.stripFragment = true → p'.fragment = []) :=
+  canonicalize_same_resource ace puny hpl hpc hi.ace_lower o hdp u p ha
+    (fun h _ => sameNameOn_of_laws hi h)
+
+/-- the URL of the non-vacuity example below -/
+def demoUrl : Str := " HTTP://WWW.XN--9CA.Fr:80/a/../b/?x=%2B&y=+#f".toList
+def demoOpts : Opts := ⟨"https".toList, false, false⟩
+
+/-- non-vacuity of the whole-function theorem with a decoder that decodes
+(`decoder_laws_together`): an accepted URL with an upper-case ACE label, a default port, dot
+segments, `+` and `%2B` in its query; the result, and the views of its parse -/
+example :
+    ((parseUrl (Canonicalize.cleanUrl demoUrl demoOpts.defaultProtocol)).map
+      (fun p => userinfoBrackets p.netloc)) = some false ∧
+    canonicalizeUrl punyOne demoOpts demoUrl = some "http://www.é.fr/b/?x=%2B&y=+#f".toList ∧
+    ((canonicalizeUrl punyOne demoOpts demoUrl).bind parseUrl).map
+        (fun p' => hostKey aceOne (p'.hostname.getD [])) = some "www.xn--9ca.fr".toList ∧
+    ((canonicalizeUrl punyOne demoOpts demoUrl).bind parseUrl).map (fun p' => pathView p'.path) =
+      some ([[0x62]], true) ∧
+    ((canonicalizeUrl punyOne demoOpts demoUrl).bind parseUrl).map
+        (fun p' => (safeQslIter p'.query).map formItem) =
+      some [([0x78], some [0x2B]), ([0x79], some [0x20])] :=
+  ⟨by decide +kernel, by decide +kernel, by decide +kernel, by decide +kernel, by decide +kernel⟩
 
 /-- **the host clause on the output string, as the property words it**: the string
 `canonicalize_url` returns parses, and the host of THAT parse is the host of the cleaned
